@@ -102,7 +102,10 @@ def impl(case):
         it = iter(exp)
         for _ in range(1 + len(case.get("options") or []) + min(part, n_nodes)):
             next(it)                   # an abandoned first iteration: header, options, `part` node lines
-    for _ in range(case.get("iterations", 1)):
+    mseq = case.get("maxlevel_seq") or []
+    for i in range(case.get("iterations", 1)):
+        if i < len(mseq):
+            exp.maxlevel = mseq[i]         # the exporter's public attribute changed between two iterations
         lines.extend(list(exp))
     if case.get("tofile"):
         # the file writers must emit the same lines (Mermaid: inside a ```mermaid fence)
